@@ -18,7 +18,7 @@ const OPS: &[&str] = &["array_int", "array_float", "array_bool", "array_obj",
                        "vec_fill", "vec_fill_float", "vec_fill_bool", "vec_fill_obj",
                        "manual_alloc", "manual_reuse", "bytes_alloc",
                        "string_repeat", "string_repeat_mb", "pad_left", "pad_right", "pad_left_mb", "pad_right_mb",
-                       "replace_sq", "join_sq",
+                       "replace_sq", "join_sq", "str_literal",
                        "concat_double", "vec_new_lit", "closures"];
 
 /// (prelude, operation input).  The operation input is the same text for every size: the size is the
@@ -28,6 +28,11 @@ fn program(op: &str, n: i128, limit: u64) -> Option<(String, String)> {
     // every global is used in the prelude itself: at -O2 an unused top-level `let` is deleted and later inputs would not compile
     // pc: a three-byte pad character, se: a six-byte / two-character repeat unit
     let pre = format!("let mut n = {}\nlet mut sx = \"0123456789abcdef\"\nlet mut pc = \"€\"\nlet mut se = \"€€\"\nlet mut rsv = {}\nlet mut used = 0\nused = sx.len() + pc.len() + se.len() + rsv\nused = n\nused\n", n, fill_reserve(op, limit));
+    if op == "str_literal" {
+        // a string constant of n bytes in the source: charged when the compile heap is merged into the VM's heap
+        let lit: String = std::iter::repeat('x').take(n.max(0) as usize).collect();
+        return Some((pre, format!("let s = \"{}\"\nused = s.len()\nused\n", lit)));
+    }
     let body = match op {
         "array_int" => "let a = Array<Int>(n)\nused = a.len()\nused\n",
         "array_float" => "let a = Array<Float>(n)\nused = a.len()\nused\n",
@@ -228,6 +233,13 @@ fn sizes_for(op: &str, limit: u64, rng: &mut Rng, random: bool) -> Vec<i128> {
     let unit: i128 = match op {
         "array_bool" | "bytes_alloc" | "pad_left" | "pad_right" | "vec_reserve_bool" => 1,
         "pad_left_mb" | "pad_right_mb" => 3, "string_repeat_mb" => 6, "string_repeat" => 16, "manual_reuse" => 16, _ => 8 };
+    if op == "str_literal" {
+        return if random { vec![rng.range_i64(0, (l + 2000) as i64) as i128] } else { vec![0, 1, 1000, l / 2, l - 100_000, l - 6000, l - 4000, l, l + 1000] };
+    }
+    if op == "bytes_alloc" && !random {
+        // its own bound: MAX_ALLOC = 256 MiB, inclusive
+        return vec![-1, 0, 1, 2, 1000, l / 2, l, 2 * l, (256 << 20) - 1, 256 << 20, (256 << 20) + 1, 1 << 31, 100_000_000_000, (1 << 47) - 1, -(1 << 47)];
+    }
     if op == "replace_sq" || op == "join_sq" {
         // n * n crosses the limit at about sqrt(limit); 2n (the two operands) fits far beyond that
         let q = (l as f64).sqrt() as i128;
@@ -347,6 +359,7 @@ fn coq_op(op: &str) -> String {
         "manual_alloc" => "OManual".into(), "manual_reuse" => "OManualReuse".into(),
         "bytes_alloc" => "OBytes".into(), "string_repeat" => "ORepeat 16".into(), "string_repeat_mb" => "ORepeat 6".into(),
         "pad_left" | "pad_right" => "OPad 16 16 1".into(), "pad_left_mb" | "pad_right_mb" => "OPad 16 16 3".into(),
+        "str_literal" => "OLiteral".into(),
         "replace_sq" => "OProductSq 1".into(), "join_sq" => "OProductSq 2".into(),
         "concat_double" => "OConcatDouble 16".into(), "vec_new_lit" => "OVecLits".into(), "closures" => "OClosures".into(), o => format!("OUnknown_{}", o),
     }
